@@ -1,8 +1,9 @@
 (* C20 — a failing client connection is contained in its own handler.
    Property theorems only.  A response is ANY list of actions (writes, with-files
    opened and closed, reference-counted opens, the FileNotFound point); the fault
-   is (k, c): the k-th write raises an error of class c (EPIPE / ECONNRESET with
-   two arguments, TIMEOUT with one) and so does every later write.
+   is ANY pattern `fails : nat -> bool` of failing write indices (gone for good
+   from write k on, failing once and recovering, failing for n writes, ...) with
+   an error class c (EPIPE / ECONNRESET with two arguments, TIMEOUT with one).
    `handle_spec p` / `server_spec` (Gen/Conn.v) are read off the except clauses of
    the current protocols/*.py handle() methods and of server.py on every run;
    `pinned_spec` / `pinned_server` are those of the pinned tree. *)
@@ -12,27 +13,27 @@ From PG Require Import Lib.Str Model.Conn Gen.Conn Gen.Opens Proofs.C20Facts Pro
 
 (* nothing propagates past server.GopherRequestHandler.handle *)
 Theorem C20_contained :
-  forall p k c acts, fst (server_handle k c server_spec (handle_spec p) acts) = Contained.
+  forall p fails c acts, fst (server_handle fails c server_spec (handle_spec p) acts) = Contained.
 Proof. exact C20Tie.contained_now. Qed.
 Print Assumptions C20_contained.
 
 (* every record logged after the connection failed carries the client address
    and the failure's own class, and there is at least one such record *)
 Theorem C20_logged_own_class :
-  forall p k c acts o s, server_handle k c server_spec (handle_spec p) acts = (o, s) ->
+  forall p fails c acts o s, server_handle fails c server_spec (handle_spec p) acts = (o, s) ->
   (forall e, In e (log s) -> e_after e = true -> e_cls e = LIO c /\ e_addr e = true) /\
-  (faulted k s = true -> exists e, In e (log s) /\ e_after e = true).
+  (faulted fails s = true -> exists e, In e (log s) /\ e_after e = true).
 Proof. exact C20Tie.logged_now. Qed.
 Print Assumptions C20_logged_own_class.
 
 (* the same two facts for every handler / server specification that satisfies the
    decidable conditions spec_ok / server_ok (what a rewrite has to preserve) *)
 Theorem C20_logged_own_class_general :
-  forall k c sp h acts, server_ok sp = true -> spec_ok h = true ->
-  forall o s, server_handle k c sp h acts = (o, s) ->
+  forall fails c sp h acts, server_ok sp = true -> spec_ok h = true ->
+  forall o s, server_handle fails c sp h acts = (o, s) ->
   o = Contained /\
   (forall e, In e (log s) -> e_after e = true -> e_cls e = LIO c /\ e_addr e = true) /\
-  (faulted k s = true -> exists e, In e (log s) /\ e_after e = true).
+  (faulted fails s = true -> exists e, In e (log s) /\ e_after e = true).
 Proof. exact C20Facts.logged_own_class. Qed.
 Print Assumptions C20_logged_own_class_general.
 
@@ -40,14 +41,26 @@ Print Assumptions C20_logged_own_class_general.
    the except clause, and that is what the server then logs (DESIGN section 7, D9) *)
 Theorem C20_argsindex_refuted :
   exists p acts k,
-    In (Entry LIndexError true true) (log (snd (server_handle k TIMEOUT pinned_server (pinned_spec p) acts))).
+    In (Entry LIndexError true true)
+       (log (snd (server_handle (window k None) TIMEOUT pinned_server (pinned_spec p) acts))).
 Proof. exact C20Facts.argsindex_refuted. Qed.
 Print Assumptions C20_argsindex_refuted.
+
+(* why spec_ok forbids `e.strerror` in a handler whose reply pushes the message
+   through html.escape: one write times out (one-argument error, strerror None),
+   the connection recovers, the reply raises AttributeError and that is logged *)
+Theorem C20_strerror_escape_refuted :
+  exists acts k,
+    In (Entry LAttributeError true true)
+       (log (snd (server_handle (window k (Some 1)) TIMEOUT pinned_server
+                   (HSpec true true MStrerror [NfW; NfW; NfW; NfW; NfWEscape; NfW]) acts))).
+Proof. exact C20Facts.strerror_escape_refuted. Qed.
+Print Assumptions C20_strerror_escape_refuted.
 
 (* every file opened by a with block is closed again, on every path, for every
    specification *)
 Theorem C20_files_closed :
-  forall k c sp h acts, balanced acts -> depth (snd (server_handle k c sp h acts)) = 0.
+  forall fails c sp h acts, balanced acts -> depth (snd (server_handle fails c sp h acts)) = 0.
 Proof. exact C20Facts.files_closed. Qed.
 Print Assumptions C20_files_closed.
 
@@ -64,6 +77,9 @@ Print Assumptions C20_non_with_sites_listed.
 Example C20_example :
   let acts := [AWrite; AOpen; AWrite; AWrite; AWrite; AClose] in
   balanced acts /\
-  server_handle 2 TIMEOUT server_spec (handle_spec PCGopherPlus) acts =
-    (Contained, St 4 0 0 [Entry (LIO TIMEOUT) true true; Entry (LIO TIMEOUT) true true]).
-Proof. split; vm_compute; reflexivity. Qed.
+  server_handle (window 2 None) TIMEOUT server_spec (handle_spec PCGopherPlus) acts =
+    (Contained, St 4 0 0 [Entry (LIO TIMEOUT) true true; Entry (LIO TIMEOUT) true true]) /\
+  (* the same write failing once: the error reply goes out, one record *)
+  server_handle (window 2 (Some 1)) TIMEOUT server_spec (handle_spec PCGopherPlus) acts =
+    (Contained, St 7 0 0 [Entry (LIO TIMEOUT) true true]).
+Proof. repeat split; vm_compute; reflexivity. Qed.
